@@ -112,7 +112,10 @@ def _parse_xml_string(xml_string, parser, charset=None):
         except ValueError as e:
             logger.debug('ValueError: Deserializing from unicode strings with '
                          'encoding declaration is not supported by lxml.')
-            root, xmlids = etree.XMLID(string.encode(charset), parser)
+            try:
+                root, xmlids = etree.XMLID(string.encode(charset), parser)
+            except (UnicodeError, LookupError) as e:
+                raise Fault('Client.XMLSyntaxError', str(e))
 
     except XMLSyntaxError as e:
         logger_invalid.error("%r in string %r", e, string)
